@@ -292,5 +292,5 @@ def _check(case):
 
 
 SUBCHECKS = [
-    HypSub("acov", _case, _check, _classify, budget={"quick": 500, "thorough": 12000}),
+    HypSub("acov", _case, _check, _classify, budget={"quick": 500, "thorough": 40000}),
 ]
